@@ -799,6 +799,13 @@ mod sync {
                                     }
                                 }
                                 #[cfg(ohkami_verif)] crate::__verif__::point("P3");
+                                /*
+                                    the interrupt may have been caught after the check above and
+                                    before the waker was published: then the handler found no waker to wake
+                                */
+                                if CATCH.load(Ordering::SeqCst) {
+                                    return Poll::Ready(None)
+                                }
                                 Poll::Pending
                             }
                         }
